@@ -127,7 +127,7 @@ B("c07-split-semicolon", ["C07", "C08"], NOTES, "for m, measure in enumerate(not
 # --------------------------------------------------------------------------- C08
 B("c08-fallback-in-loop", "C08", NOTES, "        # if there were no notes at all, write a blank measure\n        if last_player == -1:\n            push_measure()\n", "", "every exit")
 B("c08-rows-2q", "C08", NOTES, "            for _ in range(last_row + 1, q * 4):", "            for _ in range(last_row + 1, q * 2):", "4*q")
-B("c08-fill-from-last", "C08", NOTES, "                for _ in range(last_measure + 1, m):", "                for _ in range(last_measure, m):", "last+1")
+B("c08-fill-from-last", "C08", NOTES, "                for _ in range(last_measure + 1, m):", "                for _ in range(last_measure, m):", "blanks are written for range")
 B("c08-last-measure-not-updated", "C08", NOTES, "                push_measure(list(measure))\n                last_measure = m\n", "                push_measure(list(measure))\n", "advanced")
 B("c08-row-key-no-q", "C08", NOTES, "lambda note: int(note.beat % 4 * q)", "lambda note: int(note.beat % 4 * 4)", "row index")
 B("c08-lcm-product", "C08", NOTES, "q = reduce(lambda a, b: a * b // gcd(a, b), quantizations, 1)", "q = reduce(lambda a, b: max(a, b), quantizations, 1)", "least common multiple")
